@@ -514,7 +514,7 @@ def rule_collect(ctx):
                 lst = next(iter(lists))
                 lo, hi, jumps = count_appends(lp.body, lst)
                 app = next(n for n in ast.walk(lp) if isinstance(n, ast.Call) and isinstance(n.func, ast.Attribute) and n.func.attr == "append")
-                guards = {g for g in facts_at(prog, f, app, canon) if item in g}
+                guards = facts_at(prog, f, app, canon) - facts_at(prog, f, lp, canon)
                 inst["failure collection"] = {"loop": head(lp), "guards on the item": sorted(guards), "appends per item": [lo, hi], "jumps": [head(x) for x in jumps]}
                 decided = True
                 if guards == {f"not {item}.result"} and (lo, hi) == (0, 1) and not jumps:
